@@ -43,7 +43,7 @@
 //
 // HookSpec: Name, Kind (Call|Task), Trigger, Await ("" = omitted), Timeout ("" =
 // DefaultTimeout), Critical (*bool, nil = omitted = documented default true),
-// Behaviour (OK, CallError, CallTimeout, TaskExitNonZero, TaskInvoluntary,
+// Behaviour (OK, CallError, CallTimeout, CallSlow (+SleepMs), TaskExitNonZero, TaskInvoluntary,
 // TaskTimeout, TaskLateReport, TriggerError), Gate, OnlyInv (script applies to
 // the n-th invocation only). envlab.Workflow(name, hooks) renders the YAML.
 // Positions of the documented order: Pos{K,M,W}, Occurrence{K,Event,Src,Dst}
@@ -341,6 +341,9 @@ func (p *plugin) probe(call *callable.Call) {
 	}
 	errText := ""
 	switch beh {
+	case CallSlow:
+		// a slow but successful operation: the core never aborts a call at its timeout
+		time.Sleep(l.sleepOf(name))
 	case CallError:
 		errText = FailureText(name, beh)
 		call.VarStack["__call_error"] = errText
